@@ -67,7 +67,7 @@ theorem endianOf_decide (e : Endian) : endianOf (decide (e = .little)) = e := by
 
 /-- The header stage of `parseMessage` on `Spec.encodeMsg sm`: what the message object looks like when
 the body decode is reached. -/
-def parsedBase {β : Type} (T : Tables) (cls : MsgClass) (sm : SpecMsg) (fds : Option (List Int)) : Msg β :=
+def parsedBase {β : Type} (T : Tables) (cls : MsgClass) (sm : SpecMsg) (fds : Option (List PyVal)) : Msg β :=
   { cls := cls, expectReply := sm.flags % 2 = 0, autoStart := sm.flags / 2 % 2 = 0,
     attrs := applyFields T noAttrs (sm.fields.map fun f => (f.1, pyOf fds f.2)),
     body := none, serial := sm.serial,
@@ -75,7 +75,7 @@ def parsedBase {β : Type} (T : Tables) (cls : MsgClass) (sm : SpecMsg) (fds : O
     rawPadding := Spec.headerPad sm, rawBody := sm.body }
 
 theorem parse_spec {β : Type} (T : Tables) (hT : T.OK) (C : BodyCodec β) (sm : SpecMsg) (hv : sm.encodable = true)
-    (cls : MsgClass) (hcls : lookupClass T sm.mtype = some cls) (fds : Option (List Int))
+    (cls : MsgClass) (hcls : lookupClass T sm.mtype = some cls) (fds : Option (List PyVal))
     (hfd : ∀ f ∈ sm.fields, f.2.ty = .h → fds ≠ none) :
     parseMessage T C (Spec.encodeMsg sm) fds =
       (let base : Msg β := parsedBase T cls sm fds
